@@ -28,6 +28,10 @@ ANYOF(vs) == <<"ANYOF", vs>>
 \* "abc" "é" ""
 Sa == S(<<97, 98, 99>>)  Se == S(<<233>>)  S0 == S(<<>>)
 
+\* a document nested d levels deep: {"n": {"n": ... {"x": true}}}
+RECURSIVE DeepMap(_)
+DeepMap(d) == IF d = 0 THEN H(<<<<S(<<120>>), B(TRUE)>>>>) ELSE H(<<<<S(<<110>>), DeepMap(d - 1)>>>>)
+
 Exact == <<
   <<"int", I(0)>>, <<"int", I(-5)>>, <<"int", I(70000)>>, <<"int64", I(65535)>>, <<"int64", I(-1)>>,
   <<"float64", F(3, 2)>>, <<"float64", F(0, 1)>>, <<"float64", F(-5, 2)>>, <<"float32", F(1, 4)>>, <<"float32", F(7, 1)>>,
@@ -40,7 +44,8 @@ Exact == <<
   <<"[]time", A(<<I(86400), I(0)>>)>>,
   <<"[]interface", A(<<I(1), Sa, B(TRUE), F(3, 2)>>)>>,
   <<"map", H(<<<<S(<<107>>), I(1)>>, <<S(<<97>>), Sa>>>>)>>, <<"map", H(<<>>)>>,
-  <<"map", H(<<<<S(<<110>>), H(<<<<S(<<120>>), B(TRUE)>>>>)>>>>)>>
+  <<"map", H(<<<<S(<<110>>), H(<<<<S(<<120>>), B(TRUE)>>>>)>>>>)>>,
+  <<"map", DeepMap(9)>>, <<"map", DeepMap(14)>>, <<"map", DeepMap(40)>>
 >>
 NE == Len(Exact)
 
